@@ -193,7 +193,7 @@ def gen_scenarios(ctx):
         with_lin(sc, op='sympp2', pdf2='biv_lognormal', params=[0.5, 1.0, 0.5, 0.25, 1.0])
     # fine grid, selection-free, 2-D (trapezoid error on the wide log grid: 2.7e-2 at 60 points, 1e-2 at 100; the lethal x lethal
     # corner that Cache2D.integrate leaves out is < 1e-3 for these densities)
-    for gb, npts, tol2 in (([1e-4, 2000.0], ctx.pick(60, 100), ctx.pick(6e-2, 3e-2)), ([0.5, 20.0], 40, 1e-2)):
+    for gb, npts, tol2 in ([([0.5, 20.0], 40, 1e-2)] if ctx.quick else [([1e-4, 2000.0], 100, 3e-2), ([0.5, 20.0], 40, 1e-2)]):
         sc = new(c2={'kind': 'const', 'c': [0.5, 0, 0, 0, 0.25]}, ns=[2, 2], pts=[4], gamma_bounds=gb, gamma_pts=npts,
                  additional_gammas=[], family='2d-fine', selfree=True, total_one=tol2)
         add(sc, op='int2', pdf2='biv_ind_gamma', params=[1.5, 4.0], ext=True, theta=2.0)
@@ -358,15 +358,21 @@ def tab_text(t):
     tl2 = '; '.join('(%s, %s)' % (ql(blk['params']), tails_text(blk, 0)) for blk in t.tl2)
     return '{| t_pdf1 := [%s]; t_tl1 := [%s]; t_pdf2 := [%s]; t_test2 := [%s]; t_tl2 := [%s] |}' % (pdf1, tl1, pdf2, test2, tl2)
 
+def rows_text(rows, elem):
+    """a list literal; runs of identical consecutive elements are written with [repeat] (selection-free caches hold one spectrum many times)"""
+    if len(rows) >= 4 and all(r == rows[0] for r in rows):
+        return '(repeat %s %d)' % (elem(rows[0]), len(rows))
+    return '[' + '; '.join(elem(r) for r in rows) + ']'
+
 def k1_text(c1):
     if c1 is None:
         return '{| k1_xs := []; k1_gs := []; k1_sp := []; k1_neu := [] |}'
-    return '{| k1_xs := %s; k1_gs := %s; k1_sp := %s; k1_neu := %s |}' % (ql(c1['neg']), ql(c1['gammas']), qll(c1['spectra']), ql(c1['neu']))
+    return '{| k1_xs := %s; k1_gs := %s; k1_sp := %s; k1_neu := %s |}' % (ql(c1['neg']), ql(c1['gammas']), rows_text(c1['spectra'], ql), ql(c1['neu']))
 
 def k2_text(c2):
     if c2 is None:
         return '{| k2_xs := []; k2_gs := []; k2_S := [] |}'
-    return '{| k2_xs := %s; k2_gs := %s; k2_S := [%s] |}' % (ql(c2['neg']), ql(c2['gammas']), '; '.join(qll(row) for row in c2['spectra']))
+    return '{| k2_xs := %s; k2_gs := %s; k2_S := %s |}' % (ql(c2['neg']), ql(c2['gammas']), rows_text(c2['spectra'], lambda row: rows_text(row, ql)))
 
 def op_texts(op, rec, t):
     """list of (variant tuple, Coq op text); variant = (rep1d, repsym, reppp) with None = irrelevant"""
@@ -895,10 +901,14 @@ def run(ctx):
                     'harness/translate/cbody.py (C body translator) and harness/props/c17_translate.py (Python pdf translator), fail-closed',
                     'Gam (the gamma function) is a Section variable of Proofs/DFEPdf.v: Lanczos vs scipy gamma is compared numerically (1e-12)']
     rp = (json.load(open(ctx.replay)).get('input') or {}) if ctx.replay else None
-    c17_translate.obligations(ctx)
+    import time
+    def timed(name, thunk):
+        t0 = time.time(); thunk()
+        ctx.notes.append('phase %s: %.1fs' % (name, time.time() - t0))
+    timed('translators', lambda: c17_translate.obligations(ctx))
     if rp is None or 'pdf_case' in rp or not ({'scenario', 'request'} & set(rp)):
-        pdf_numeric(ctx)
+        timed('pdf numerics', lambda: pdf_numeric(ctx))
     if rp is None or 'scenario' in rp or not ({'pdf_case', 'request'} & set(rp)):
-        scenarios(ctx)
+        timed('scenarios', lambda: scenarios(ctx))
     if rp is None or 'request' in rp:
-        mp_part(ctx, rp.get('request') if rp else None)
+        timed('multiprocessing', lambda: mp_part(ctx, rp.get('request') if rp else None))
